@@ -35,7 +35,8 @@ type state struct {
 	fix    *minerfix.Fix
 	k      int
 	blocks map[string]*blk
-	pools  [][]int          // miner sets (key indices) per slot
+	pools  [][]int          // miner set (key indices) of the magic block in force for each slot's round
+	slotMB []int            // which installed magic block the REAL chain returns for each slot's round (GetMagicBlock)
 	rounds []*miner.Round   // the round of each slot
 	prevs  []*block.Block   // a notarized previous block per slot
 }
@@ -146,14 +147,23 @@ func (s *state) step(ws []string) string {
 		for j := range all {
 			all[j] = j
 		}
-		return s.setup([][]int{all}, false)
-	case ws[0] == "miners2" && len(ws) == 3:
+		return s.setup([][]int{all}, nil)
+	case ws[0] == "miners2" && (len(ws) == 3 || len(ws) == 5):
 		l0, ok0 := intList(ws[1])
 		l1, ok1 := intList(ws[2])
-		if !ok0 || !ok1 || len(l0) == 0 || len(l1) == 0 || !contains(l0, 0) || hasDup(l0) || hasDup(l1) {
+		r0, r1 := int64(50), int64(200)
+		if len(ws) == 5 {
+			a, e1 := strconv.ParseInt(ws[3], 10, 64)
+			b, e2 := strconv.ParseInt(ws[4], 10, 64)
+			if e1 != nil || e2 != nil || a < 0 || b < 0 {
+				return "bad-op"
+			}
+			r0, r1 = a, b
+		}
+		if !ok0 || !ok1 || len(l0) == 0 || len(l1) == 0 || !contains(l0, 0) || hasDup(l0) || hasDup(l1) || r0 < 2 || r1 <= r0+1 {
 			return "bad-op"
 		}
-		return s.setup([][]int{l0, l1}, true)
+		return s.setup([][]int{l0, l1}, []int64{r0, r1})
 	case ws[0] == "block" && (len(ws) == 4 || len(ws) == 5):
 		g, err := strconv.Atoi(ws[2])
 		_, ok := cryptow.ParseFr(ws[3])
@@ -177,8 +187,8 @@ func (s *state) step(ws []string) string {
 		b.SetPreviousBlock(pb)
 		b.CreationDate = s.fix.GB.CreationDate + common.Timestamp(2+len(s.blocks))
 		b.ClientStateHash = s.fix.GB.ClientStateHash
-		b.LatestFinalizedMagicBlockRound = s.fix.MBs[slot].StartingRound
-		b.LatestFinalizedMagicBlockHash = s.fix.LFMBs[slot].Hash
+		b.LatestFinalizedMagicBlockRound = s.fix.MBs[s.slotMB[slot]].StartingRound
+		b.LatestFinalizedMagicBlockHash = s.fix.LFMBs[s.slotMB[slot]].Hash
 		b.HashBlock()
 		sg, err := s.w.Keys["n"+strconv.Itoa(g)].Sign(b.Hash)
 		if err != nil {
@@ -303,9 +313,9 @@ func hasDup(l []int) bool {
 
 // setup builds the miner chain: one magic block (blocks live in round 1), or two magic blocks with starting rounds 0 and 100
 // (slot 0 = round 50 under the first, slot 1 = round 200 under the second).
-func (s *state) setup(pools [][]int, two bool) string {
+func (s *state) setup(mbPools [][]int, rounds []int64) string {
 	top := 0
-	for _, p := range pools {
+	for _, p := range mbPools {
 		for _, j := range p {
 			if j > top {
 				top = j
@@ -325,18 +335,32 @@ func (s *state) setup(pools [][]int, two bool) string {
 		keys[j] = pub
 	}
 	s.close()
-	s.fix = minerfix.New(minerfix.Opts{N: top + 1, T: len(pools[0]), Self: 0, ThresholdByCount: 66, Keys: keys, SelfKey: s.w.Keys["n0"], Pools: pools})
+	s.fix = minerfix.New(minerfix.Opts{N: top + 1, T: len(mbPools[0]), Self: 0, ThresholdByCount: 66, Keys: keys, SelfKey: s.w.Keys["n0"], Pools: mbPools})
 	s.k = top + 1
-	s.pools = pools
 	s.blocks = map[string]*blk{}
-	s.rounds, s.prevs = nil, nil
-	if !two {
+	s.rounds, s.prevs, s.pools, s.slotMB = nil, nil, nil, nil
+	if rounds == nil {
 		s.rounds = []*miner.Round{s.fix.Round(1, roundSeed)}
 		s.prevs = []*block.Block{s.fix.GB}
+		s.pools = [][]int{mbPools[0]}
+		s.slotMB = []int{0}
 		s.fix.MC.SetCurrentRound(2) // a notarization of round 1 must not start round 2 in the fixture
 		return "ok"
 	}
-	for slot, rn := range []int64{50, 200} {
+	for _, rn := range rounds {
+		// the magic block the REAL chain says is in force for the round
+		mb := s.fix.MC.GetMagicBlock(rn)
+		idx := -1
+		for i, m := range s.fix.MBs {
+			if m == mb {
+				idx = i
+			}
+		}
+		if idx < 0 {
+			return "err"
+		}
+		s.slotMB = append(s.slotMB, idx)
+		s.pools = append(s.pools, mbPools[idx])
 		s.fix.Round(rn-1, roundSeed+1)
 		s.rounds = append(s.rounds, s.fix.Round(rn, roundSeed))
 		// the previous block: notarized and state-computed, so that nothing is fetched or verified for it
@@ -344,7 +368,7 @@ func (s *state) setup(pools [][]int, two bool) string {
 		pb.SetRoundRandomSeed(roundSeed + 1)
 		pb.CreationDate = s.fix.GB.CreationDate + 1
 		pb.ClientStateHash = s.fix.GB.ClientStateHash
-		pb.MinerID = s.fix.Nodes[pools[slot][0]].GetKey()
+		pb.MinerID = s.fix.Nodes[mbPools[idx][0]].GetKey()
 		pb.HashBlock()
 		pb.SetBlockNotarized()
 		pb.SetBlockState(block.StateNotarized)
@@ -352,8 +376,10 @@ func (s *state) setup(pools [][]int, two bool) string {
 		pb.ClientState = s.fix.GB.ClientState
 		s.prevs = append(s.prevs, pb)
 	}
-	s.fix.MC.SetCurrentRound(51)
-	return "ok"
+	// the lower round must still be accepted (b.Round >= current-1); the higher one must not be "the current round",
+	// or its notarization would start the next round
+	s.fix.MC.SetCurrentRound(rounds[0] + 1)
+	return fmt.Sprintf("ok mb=%d,%d", s.slotMB[0], s.slotMB[1])
 }
 
 func impl(ops []string) []string {
@@ -407,29 +433,67 @@ func genCase(r *rand.Rand, thorough bool, i int) []string {
 	// n keys; one magic block holding all of them, or two magic blocks with different miner sets (a view change)
 	two := r.Intn(3) == 0
 	n := 1 + r.Intn(maxN)
-	var pools [][]int
+	var pools [][]int   // pool of the magic block in force for each slot's round
+	var mbPools [][]int // miner set of each installed magic block
+	var rounds []int64
 	if two {
-		n = 3 + r.Intn(maxN-1)
+		n = 3 + r.Intn(5) // up to 7 nodes: a shrinking view change 7 -> 4 must be reachable
 		for {
 			var l0, l1 []int
 			l0 = append(l0, 0)
+			shape := r.Intn(5) // 0 random overlap, 1 shrink (B subset of A), 2 grow (A subset of B), 3 disjoint apart from nothing, 4 random
 			for j := 1; j < n; j++ {
-				switch r.Intn(3) {
-				case 0:
-					l0 = append(l0, j)
+				switch shape {
 				case 1:
-					l1 = append(l1, j)
-				default:
 					l0 = append(l0, j)
+					if r.Intn(2) == 0 {
+						l1 = append(l1, j)
+					}
+				case 2:
 					l1 = append(l1, j)
+					if r.Intn(2) == 0 {
+						l0 = append(l0, j)
+					}
+				case 3:
+					if j%2 == 0 {
+						l0 = append(l0, j)
+					} else {
+						l1 = append(l1, j)
+					}
+				default:
+					switch r.Intn(3) {
+					case 0:
+						l0 = append(l0, j)
+					case 1:
+						l1 = append(l1, j)
+					default:
+						l0 = append(l0, j)
+						l1 = append(l1, j)
+					}
 				}
 			}
-			if r.Intn(2) == 0 {
+			if shape != 3 && r.Intn(2) == 0 {
 				l1 = append(l1, 0)
 			}
 			if len(l1) > 0 && fmt.Sprint(l0) != fmt.Sprint(l1) {
-				pools = [][]int{l0, l1}
+				mbPools = [][]int{l0, l1}
 				break
+			}
+		}
+		// rounds around the view change at round 100: the new magic block is in force from round 104 (ViewChangeOffset)
+		cand := []int64{50, 98, 99, 100, 100, 101, 101, 102, 103, 103, 104, 104, 105, 106, 200}
+		for {
+			a, b := cand[r.Intn(len(cand))], cand[r.Intn(len(cand))]
+			if a < b && b != a+1 {
+				rounds = []int64{a, b}
+				break
+			}
+		}
+		for _, rn := range rounds {
+			if rn-4 >= 100 { // the generator's own idea of GetMagicBlock(round); the real answer is printed by `miners2`
+				pools = append(pools, mbPools[1])
+			} else {
+				pools = append(pools, mbPools[0])
 			}
 		}
 	} else {
@@ -438,6 +502,7 @@ func genCase(r *rand.Rand, thorough bool, i int) []string {
 			all[j] = j
 		}
 		pools = [][]int{all}
+		mbPools = pools
 	}
 	thrOf := func(slot int) int { return (len(pools[slot])*66 + 99) / 100 }
 	for j := 0; j < n; j++ {
@@ -445,7 +510,7 @@ func genCase(r *rand.Rand, thorough bool, i int) []string {
 	}
 	g.add("msg junk %s", rndGeneric(r))
 	if two {
-		g.add("miners2 %s %s", joinInts(pools[0]), joinInts(pools[1]))
+		g.add("miners2 %s %s %d %d", joinInts(mbPools[0]), joinInts(mbPools[1]), rounds[0], rounds[1])
 	} else {
 		g.add("miners %d", n)
 	}
@@ -594,8 +659,27 @@ func genCase(r *rand.Rand, thorough bool, i int) []string {
 		}
 		return strings.Join(es, ",")
 	}
+	// valid tickets of distinct miners of the round, as many as the OTHER magic block's threshold asks for
+	thrOther := func(nm string) string {
+		own := thrOf(slotOf[nm])
+		cnt := own - 1
+		if len(mbPools) == 2 {
+			for _, p := range mbPools {
+				if t := (len(p)*66 + 99) / 100; t < own {
+					cnt = t
+				}
+			}
+		}
+		if cnt < 1 {
+			cnt = 1
+		}
+		es, _ := distinct(nm, cnt)
+		return strings.Join(es, ",")
+	}
 	special := func(nm string) string { // the crafted ticket lists
-		switch r.Intn(4) {
+		switch r.Intn(5) {
+		case 4:
+			return thrOther(nm)
 		case 0:
 			return cancel(nm)
 		case 1:
@@ -659,7 +743,7 @@ func joinInts(xs []int) string {
 }
 
 func genMalformed(r *rand.Rand) []string {
-	return []string{"dkg 0 0", "key n0 5", "msg junk 3", "miners 0", "miners 2", "miners2 1 0", "miners2 0 5", "miners 1", "block a 3 7", "block c 0 7 1", "block a 0 7", "block a 0 7", "attach b -", "attach a q:1", "propose b", "ticket a n0:99", "notarization a -", "notarization a n0:0", "status zz", "frob"}
+	return []string{"dkg 0 0", "key n0 5", "msg junk 3", "miners 0", "miners 2", "miners2 1 0", "miners2 0 5", "miners2 0,1 0 100 101", "miners2 0,1 0 1 50", "miners 1", "block a 3 7", "block c 0 7 1", "block a 0 7", "block a 0 7", "attach b -", "attach a q:1", "propose b", "ticket a n0:99", "notarization a -", "notarization a n0:0", "status zz", "frob"}
 }
 
 func genAll(r *rand.Rand, thorough bool, i int) []string {
@@ -697,6 +781,15 @@ func main() {
 				"attach a n0:0,n4:1,n5:2", "nblock a", "ticket a n5:2", "know a", "ticket a n5:2", "notarization a n0:0,n4:1,n5:2",
 				"ksign n0 blk-b", "ksign n2 blk-b", "ksign n3 blk-b", "kverify n0 3 blk-b", "kverify n2 4 blk-b", "kverify n3 5 blk-b",
 				"attach b n0:3,n2:4,n3:5", "nblock b", "ksign n4 blk-b", "ksign n5 blk-b", "kverify n4 6 blk-b", "kverify n5 7 blk-b", "attach b n0:3,n4:6,n5:7", "nblock b"},
+			// a SHRINKING view change (7 miners -> 4 at round 100, in force from round 104): in rounds 100..103 the old magic block
+			// still governs: 3 valid tickets (the new block's threshold) are not enough, 5 are; in round 104 three of the new set are
+			{"dkg 0 0", "key n0 11", "key n1 13", "key n2 17", "key n3 19", "key n4 23", "key n5 29", "key n6 31", "msg junk 9",
+				"miners2 0,1,2,3,4,5,6 0,1,2,3 101 104", "block a 5 5 0", "block b 1 6 1",
+				"ksign n4 blk-a", "ksign n5 blk-a", "ksign n6 blk-a", "ksign n0 blk-a", "ksign n1 blk-a",
+				"kverify n4 0 blk-a", "kverify n5 1 blk-a", "kverify n6 2 blk-a", "kverify n0 3 blk-a", "kverify n1 4 blk-a",
+				"attach a n4:0,n5:1,n6:2", "nblock a", "attach a -", "know a", "notarization a n4:0,n5:1,n6:2", "ticket a n4:0", "ticket a n5:1", "ticket a n6:2", "status a",
+				"ticket a n0:3", "ticket a n1:4", "status a",
+				"ksign n0 blk-b", "ksign n1 blk-b", "ksign n2 blk-b", "kverify n0 5 blk-b", "kverify n1 6 blk-b", "kverify n2 7 blk-b", "attach b n0:5,n1:6,n2:7", "nblock b"},
 			// the same valid ticket in two encodings while the block is unknown, then the (clean) proposal arrives
 			{"dkg 0 0", "key n0 11", "key n1 13", "key n2 17", "msg junk 9", "miners 3", "block a 1 5", "ksign n2 blk-a", "kverify n2 0 blk-a",
 				"ticket a n2:0", "ticket a n2:0:u", "attach a -", "propose a", "status a"},
